@@ -438,7 +438,8 @@ fn obu_strategy() -> impl Strategy<Value = ObuGene> {
         any::<u8>(),
         prop::bool::weighted(0.85),
         0u8..4,
-        prop_oneof![5 => 0u16..60, 1 => 60u16..3000],
+        // payload sizes around the leb128 length boundaries (1 -> 2 -> 3 bytes)
+        prop_oneof![10 => 0u16..60, 2 => 60u16..3000, 1 => 124u16..131, 1 => 16_380u16..16_388],
         0u8..4,
     )
         .prop_map(|(typ, ext, ext_byte, has_size, leb_pad, len, fill)| ObuGene { typ, ext, ext_byte, has_size, leb_pad, len, fill })
